@@ -605,6 +605,22 @@ func c09Replay(t *vk.T, proto string, i int) {
 			t.Obs("replay_sources_unavailable", 1)
 			continue
 		}
+		// the same other session once more, this time stopped by one of its users: its abort notices are messages of
+		// that session too
+		nAbort := 0
+		_, _, _ = w.run(t, v, func(n *sim.Net) {
+			n.OnDeliver = func(_ *sim.Net, d *sim.Delivery) []*sim.Delivery {
+				if d.Round == 0 {
+					wire = append(wire, d.Bytes)
+					nAbort++
+				}
+				return []*sim.Delivery{d}
+			}
+			if len(n.Parties) > 0 {
+				n.Parties[r.Intn(len(n.Parties))].H.Stop()
+			}
+		})
+		t.Obs("foreign_abort_notices_collected", int64(nAbort))
 		// dedupe
 		seen := map[string]bool{}
 		var msgs []*protocol.Message
